@@ -221,7 +221,10 @@ int main() {
       std::string p, lib; int fid; is >> p >> fid >> lib;
       InterrogateModuleDef *def = new InterrogateModuleDef;
       memset(def, 0, sizeof(*def));
-      def->file_identifier = fid; def->library_name = keep(lib); def->library_hash_name = keep("");
+      std::string hash;
+      size_t colon = lib.find(':');
+      if (colon != std::string::npos) { hash = lib.substr(colon + 1); lib = lib.substr(0, colon); }
+      def->file_identifier = fid; def->library_name = keep(lib); def->library_hash_name = keep(hash);
       def->module_name = keep("m"); def->database_filename = p == "-" ? nullptr : keep(p);
       int first = 0, next = 0, n = 0;
       if (is >> first >> next) { def->first_index = first; def->next_index = next; }
